@@ -276,7 +276,7 @@ def json_s(x):
     return json.dumps(x)
 
 
-@rule('C10a', props=['C10', 'C13', 'C01', 'C04'], floor=2, configs=('all', 'default'))
+@rule('C10a', props=['C10', 'C13', 'C01', 'C04', 'C16'], floor=2, configs=('all', 'default'))
 def c10a_clone_from_clears(prog):
     """Archetypes::clone_from: every path to return runs the pass that clears (clear_detached) each
     destination archetype that is not the image of a source archetype (test: `!set_of_images.contains`);
@@ -322,6 +322,13 @@ def c10a_clone_from_clears(prog):
             return S(e['vals'][0])
         return None
     n_src = n_dst = 0
+    # every source archetype is visited: the source loop's iterator is not filtered / truncated
+    for p in E.paths:
+        for a_, v in p.conds:
+            if isinstance(a_, tuple) and a_[0] in ('next', 'nonempty', 'consumed'):
+                root, kinds = pathsem.iter_chain(a_[1])
+                if S(root) == p_src and 'iter' in kinds and any(k in ('filter', 'filter_map', 'skip', 'take', 'step_by', 'skip_while', 'take_while') for k in kinds):
+                    once('source-archetype-skipped', None, 'the loop over the source archetypes filters or truncates them (%s): a source archetype that is skipped is never cloned into the destination, identifier_map stays incomplete and the two worlds end up with different tables' % '/'.join(kinds))
     for p in E.paths:
         if p.ended not in ('return', 'cutoff'):
             continue
